@@ -114,6 +114,7 @@ package bloomsearch
 //@ global ErrEngineStopped != ErrMergeInProgress && ErrMergeInProgress != ErrPostCommitCleanup
 // Only buffers that exist can be checked out of the scan-buffer pool.
 //@ global forall a :: ghost.bufOwned[a] ==> a >= $alloc
+//@ global forall a :: ghost.pinned[a] ==> a >= $alloc && a != 0
 
 //@ ghostvar roundAttempts int  // waiters attempted inside answer rounds (attempts - roundAttempts = direct answers)
 //@ ghostvar flushTriggers int   // calls of triggerFlush
@@ -121,6 +122,7 @@ package bloomsearch
 //@ ghostvar rwRUnlocks int      // (*sync.RWMutex).RUnlock calls
 //@ ghostvar rwLocks int         // (*sync.RWMutex).Lock calls
 //@ ghostvar rwUnlocks int       // (*sync.RWMutex).Unlock calls
+//@ ghostvar pinned map[int]bool     // backing array of a row buffer that bloom entry sets may still hold string views into (indexRow)
 //@ ghostvar bufOwned map[int]bool   // scan-buffer typestate: backing array is checked out of the pool and not yet returned
 
 //@ extern (*sync.RWMutex).RLock
@@ -139,7 +141,7 @@ package bloomsearch
 //@ modifies ghost.mutexLocks
 //@ ensures ghost.mutexLocks == old(ghost.mutexLocks) + 1
 
-//@ modset store =ghost.creates, ghost.created, ghost.writes, ghost.closeCalls, ghost.closeOK, ghost.aborts, ghost.tombstones, ghost.opens, ghost.updates, ghost.updateOK, ghost.closeOKAtUpdate, ghost.updateOKAtTombstone, ghost.tombstonesAtUpdate
+//@ modset store =ghost.unions, ghost.creates, ghost.created, ghost.writes, ghost.closeCalls, ghost.closeOK, ghost.aborts, ghost.tombstones, ghost.opens, ghost.updates, ghost.updateOK, ghost.closeOKAtUpdate, ghost.updateOKAtTombstone, ghost.tombstonesAtUpdate
 //@ modset answers = ghost.attempts, ghost.roundAttempts, ghost.sendRounds, ghost.nilRounds, ghost.updateOKAtNilRound, ghost.sends, ghost.nilsends, ghost.recvs
 
 // Store interfaces: results are unconstrained (any call may fail, in any
@@ -370,7 +372,7 @@ package bloomsearch
 //@ at call (*BloomSearchEngine).flushBufferedData#1 assert [C07] len(*doneChans) == old(len(*doneChans)) + 1 && (*doneChans)[len(*doneChans) - 1] == req.doneChan && forall k :: 0 <= k && k < old(len(*doneChans)) ==> (*doneChans)[k] == old((*doneChans)[k])
 //@ at call (*BloomSearchEngine).flushBufferedData#2 assert [C07] len(*doneChans) == old(len(*doneChans)) + 1 && (*doneChans)[len(*doneChans) - 1] == req.doneChan && forall k :: 0 <= k && k < old(len(*doneChans)) ==> (*doneChans)[k] == old((*doneChans)[k])
 //@ ensures [C07] len(*doneChans) == old(len(*doneChans)) + 1 ==> (*doneChans)[len(*doneChans) - 1] == old(req.doneChan) && forall k :: 0 <= k && k < old(len(*doneChans)) ==> (*doneChans)[k] == old((*doneChans)[k])
-//@ modifies heaps, ghost.flushTriggers, ghost.writes, ghost.unsafeViews, $answers
+//@ modifies heaps, ghost.flushTriggers, ghost.writes, ghost.unsafeViews, ghost.pinned, $answers
 //@ let direct0 = ghost.attempts - ghost.roundAttempts
 // C10 / C09: reaching a buffer-level limit flushes immediately — when the call
 // returns having retained the batch without triggering a flush, the buffered row
@@ -709,6 +711,21 @@ package bloomsearch
 //@ modifies *scratch, heap(bool), heap(string), heap([]string), ghost.matchedOK, ghost.unsafeViews
 //@ ensures ghost.matchedOK == result
 
+// match: the verdict is a function of this row alone. Both pieces of per-row
+// scratch state are reset before the row is walked — every condition verdict is
+// false and every regex candidate list is empty when the walker starts — so
+// nothing a previous row left behind can satisfy a condition of this one
+// (C02: every delivered row itself satisfies the query).
+//@ func (*compiledRowMatcher).match
+//@ props C02
+//@ requires m != nil && scratch != nil
+//@ modifies all
+//@ loop 0 invariant -1 <= $index && forall k :: 0 <= k && k <= $index && k < len(sat) ==> !sat[k]
+//@ loop 1 invariant forall k :: 0 <= k && k < len(sat) ==> !sat[k]
+//@ loop 1 invariant -1 <= $index && forall k :: 0 <= k && k <= $index && k < len(scratch.regexTexts) ==> len(scratch.regexTexts[k]) == 0
+//@ at call (*pathWalker).walk#1 assert [C02] forall k :: 0 <= k && k < len(scratch.sat) ==> !scratch.sat[k]
+//@ at call (*pathWalker).walk#1 assert [C02] forall k :: 0 <= k && k < len(scratch.regexTexts) ==> len(scratch.regexTexts[k]) == 0
+
 // add may only be called for the row that was just verified by matchRowBytes.
 //@ func (*rowBatcher).add
 //@ appends b.batch
@@ -981,7 +998,7 @@ package bloomsearch
 //@ func (*BloomSearchEngine).Merge
 //@ props C13
 //@ requires b != nil
-//@ modifies heaps, $store, ghost.mutexLocks, ghost.mutexUnlocks, ghost.handleCloses, ghost.unsafeViews
+//@ modifies heaps, $store, ghost.mutexLocks, ghost.mutexUnlocks, ghost.handleCloses, ghost.unsafeViews, ghost.pinned
 //@ ensures ghost.mutexLocks <= old(ghost.mutexLocks) + 1
 //@ ensures ghost.mutexLocks - old(ghost.mutexLocks) == ghost.mutexUnlocks - old(ghost.mutexUnlocks)
 //@ ensures ghost.mutexLocks == old(ghost.mutexLocks) ==> result1 == ErrMergeInProgress && result0 == nil
@@ -993,7 +1010,7 @@ package bloomsearch
 //@ func (*BloomSearchEngine).executeMergeGroup
 //@ props C13
 //@ requires b != nil
-//@ modifies heaps, $store, ghost.handleCloses, ghost.unsafeViews
+//@ modifies heaps, $store, ghost.handleCloses, ghost.unsafeViews, ghost.pinned
 //@ loop 3 invariant ghost.creates == old(ghost.creates) + 1 && ghost.created == old(ghost.created) + 1
 //@ loop 3 invariant ghost.closeCalls == old(ghost.closeCalls) && ghost.closeOK == old(ghost.closeOK) && ghost.aborts == old(ghost.aborts)
 //@ loop 3 invariant ghost.updates == old(ghost.updates) && ghost.updateOK == old(ghost.updateOK) && ghost.tombstones == old(ghost.tombstones)
@@ -1005,6 +1022,95 @@ package bloomsearch
 //@ ensures ghost.created <= old(ghost.created) + 1 && ghost.created >= old(ghost.created)
 //@ ensures ghost.closeOK >= old(ghost.closeOK)
 
+// Entry-set lifetime (C18, and through it C01/C17/C11). indexRow parses the
+// row through a zero-copy view, and with a custom tokenizer the strings it
+// stores in the entry sets may be substrings of that view (its doc comment says
+// so): from then on the row's backing array is *pinned* — it must stay
+// untouched until the sets have been turned into filters. Nothing ever unpins;
+// every library call that fills a byte buffer (io.ReadFull) and the scan-buffer
+// pool (putScanBuffer) require an unpinned buffer. The merge functions are
+// verified against that: a row buffer that was indexed is never refilled and
+// never handed to the pool for the rest of the merge.
+// setsOK: three distinct, allocated entry maps. freshSets: allocated by the
+// current function (so distinct from every map that existed on entry).
+//@ pred setsOK(s *bloomEntrySets) = s != nil && s.fields != nil && s.tokens != nil && s.fieldTokens != nil && s.fields != s.tokens && s.fields != s.fieldTokens && s.tokens != s.fieldTokens
+//@ func newBloomEntrySets
+//@ props C18
+//@ modifies nothing
+//@ ensures setsOK(result) && ref(result) < old($alloc) && ref(result.fields) < old($alloc) && ref(result.tokens) < old($alloc) && ref(result.fieldTokens) < old($alloc)
+
+//@ func (*bloomEntrySets).indexRow
+//@ props C18
+//@ assumed gjson/tokenizer-bound body; what it retains is what its doc comment states (views into rowBytes)
+//@ entry ghost.pinned = arr(rowBytes) != 0 ? update(ghost.pinned, arr(rowBytes), true) : ghost.pinned
+//@ modifies *s, map(s.fields), map(s.tokens), map(s.fieldTokens), heap(byte), ghost.pinned, ghost.unsafeViews
+//@ ensures arr(rowBytes) != 0 ==> ghost.pinned[arr(rowBytes)]
+//@ ensures forall a :: a != arr(rowBytes) || a == 0 ==> ghost.pinned[a] == old(ghost.pinned[a])
+//@ ensures s.fields == old(s.fields) && s.tokens == old(s.tokens) && s.fieldTokens == old(s.fieldTokens)
+
+// unionInto: afterwards dst holds every entry of s and everything it held
+// before, and nothing else — the file-level sets are exactly the union of the
+// block-level sets (file filters contain every entry of every block).
+//@ ghostvar unions int    // unionInto calls (block-level entry sets folded into file-level sets)
+//@ func (*bloomEntrySets).unionInto
+//@ props C18
+//@ entry ghost.unions = ghost.unions + 1
+//@ requires [C18] s != nil && dst != nil && s != dst
+//@ requires [C18] s.fields != nil && s.tokens != nil && s.fieldTokens != nil && dst.fields != nil && dst.tokens != nil && dst.fieldTokens != nil
+//@ requires [C18] s.fields != dst.fields && s.fields != dst.tokens && s.fields != dst.fieldTokens
+//@ requires [C18] s.tokens != dst.fields && s.tokens != dst.tokens && s.tokens != dst.fieldTokens
+//@ requires [C18] s.fieldTokens != dst.fields && s.fieldTokens != dst.tokens && s.fieldTokens != dst.fieldTokens
+//@ requires [C18] dst.fields != dst.tokens && dst.fields != dst.fieldTokens && dst.tokens != dst.fieldTokens
+//@ modifies map(dst.fields), map(dst.tokens), map(dst.fieldTokens), ghost.unions
+//@ ensures ghost.unions == old(ghost.unions) + 1
+//@ loop 0 invariant mapsframe(dst.fields, dst.tokens, dst.fieldTokens)
+//@ loop 1 invariant mapsframe(dst.fields, dst.tokens, dst.fieldTokens)
+//@ loop 2 invariant mapsframe(dst.fields, dst.tokens, dst.fieldTokens)
+//@ loop 0 invariant forall k str :: has(dst.fields, k) <==> old(has(dst.fields, k)) || $visited[k]
+//@ loop 0 invariant forall k str :: $visited[k] ==> has(s.fields, k)
+//@ loop 0 invariant forall k str :: has(dst.tokens, k) == old(has(dst.tokens, k)) && has(dst.fieldTokens, k) == old(has(dst.fieldTokens, k))
+//@ loop 1 invariant forall k str :: has(dst.fields, k) <==> old(has(dst.fields, k)) || has(s.fields, k)
+//@ loop 1 invariant forall k str :: has(dst.tokens, k) <==> old(has(dst.tokens, k)) || $visited[k]
+//@ loop 1 invariant forall k str :: $visited[k] ==> has(s.tokens, k)
+//@ loop 1 invariant forall k str :: has(dst.fieldTokens, k) == old(has(dst.fieldTokens, k))
+//@ loop 2 invariant forall k str :: has(dst.fields, k) <==> old(has(dst.fields, k)) || has(s.fields, k)
+//@ loop 2 invariant forall k str :: has(dst.tokens, k) <==> old(has(dst.tokens, k)) || has(s.tokens, k)
+//@ loop 2 invariant forall k str :: has(dst.fieldTokens, k) <==> old(has(dst.fieldTokens, k)) || $visited[k]
+//@ loop 2 invariant forall k str :: $visited[k] ==> has(s.fieldTokens, k)
+//@ ensures forall k str :: has(dst.fields, k) <==> old(has(dst.fields, k)) || has(s.fields, k)
+//@ ensures forall k str :: has(dst.tokens, k) <==> old(has(dst.tokens, k)) || has(s.tokens, k)
+//@ ensures forall k str :: has(dst.fieldTokens, k) <==> old(has(dst.fieldTokens, k)) || has(s.fieldTokens, k)
+
+//@ func (*BloomSearchEngine).copyDataBlock
+//@ props C18
+//@ requires b != nil && currentOffset != nil && newDataBlocks != nil && fileEntries != nil && filterRegion != nil
+//@ appends *newDataBlocks
+//@ modifies heaps, ghost.pinned, ghost.unsafeViews, ghost.opens, ghost.handleCloses, ghost.writes
+//@ loop 0 invariant forall a :: ghost.pinned[a] ==> a >= $alloc && a != 0
+//@ loop 0 invariant scanner != nil && 0 <= scanner.pos && scanner.pos <= len(scanner.data)
+
+//@ func (*BloomSearchEngine).mergeDataBlocks
+//@ props C18
+//@ heapfacts
+//@ requires b != nil && currentOffset != nil && newDataBlocks != nil && fileEntries != nil && filterRegion != nil
+//@ requires setsOK(fileEntries)
+//@ pred sameSets(s *bloomEntrySets) = s.fields == old(s.fields) && s.tokens == old(s.tokens) && s.fieldTokens == old(s.fieldTokens)
+//@ pred freshSets(s *bloomEntrySets) = setsOK(s) && ref(s) < old($alloc) && ref(s.fields) < old($alloc) && ref(s.tokens) < old($alloc) && ref(s.fieldTokens) < old($alloc)
+//@ loop 0 invariant sameSets(fileEntries) && freshSets(blockEntries)
+//@ loop 1 invariant sameSets(fileEntries) && freshSets(blockEntries)
+//@ loop 0 invariant ghost.unions == old(ghost.unions)
+//@ loop 1 invariant ghost.unions == old(ghost.unions)
+//@ ensures sameSets(fileEntries)
+// a merged block that is reported (nil error) had its entry sets folded into the
+// file-level sets exactly once, after its last row was indexed
+//@ ensures [C18] result == nil ==> ghost.unions == old(ghost.unions) + 1
+//@ ensures [C18] ghost.unions <= old(ghost.unions) + 1
+//@ appends *newDataBlocks
+//@ modifies heaps, ghost.pinned, ghost.unsafeViews, ghost.opens, ghost.handleCloses, ghost.writes, ghost.unions
+//@ loop 0 invariant forall a :: ghost.pinned[a] ==> a >= $alloc && a != 0
+//@ loop 1 invariant forall a :: ghost.pinned[a] ==> a >= $alloc && a != 0
+//@ loop 1 invariant scanner != nil && 0 <= scanner.pos && scanner.pos <= len(scanner.data)
+
 // merge: Update at most once, only after every group's output was closed
 // successfully and before any tombstone; without a commit every created output
 // is tombstoned and nothing else is; the three result shapes mean what the
@@ -1012,7 +1118,7 @@ package bloomsearch
 //@ func (*BloomSearchEngine).merge
 //@ props C13
 //@ requires b != nil
-//@ modifies heaps, $store, ghost.handleCloses, ghost.unsafeViews
+//@ modifies heaps, $store, ghost.handleCloses, ghost.unsafeViews, ghost.pinned
 //@ loop 8 invariant -1 <= $index && ghost.updates == old(ghost.updates) && ghost.updateOK == old(ghost.updateOK) && ghost.tombstones == old(ghost.tombstones)
 //@ loop 8 invariant ghost.created == old(ghost.created) + $index + 1 && ghost.creates == old(ghost.creates) + $index + 1 && ghost.closeOK == old(ghost.closeOK) + $index + 1 && len(writeOps) == $index + 1
 //@ loop 9 invariant -1 <= $index && $index < len(writeOps) && ghost.updates == old(ghost.updates) && ghost.updateOK == old(ghost.updateOK)
@@ -1189,6 +1295,7 @@ package bloomsearch
 //@ ensures fileSize(recv) >= 0
 //@ ensures result1 == nil && whence == 2 && offset == 0 ==> result0 == fileSize(recv)
 //@ extern io.ReadFull
+//@ requires [C18] arr(buf) == 0 || !ghost.pinned[arr(buf)]   // never refill a buffer that index entries still view
 //@ modifies buf[*]
 
 // An extent accepted by checkExtentWithinFile lies inside the file (stated over
@@ -1200,23 +1307,25 @@ package bloomsearch
 //@ ensures result == nil ==> offset + size <= fileSize(file)
 
 //@ func readFullAt
-//@ props C19 C24
+//@ props C19 C24 C18
 //@ safety
+//@ requires [C18] arr(buf) == 0 || !ghost.pinned[arr(buf)]
 //@ modifies buf[*]
 
 // decodeBlockRowDataInto: CRC before decompression; output bounded by the
 // block's UncompressedSize (not a framing field: it sizes the decode buffer and
 // is checked non-negative; the stream must decode to exactly that many bytes).
 //@ func decodeBlockRowDataInto
-//@ props C19
+//@ props C19 C18
 //@ safety
 //@ requires block != nil
+//@ requires [C18] arr(dst) == 0 || !ghost.pinned[arr(dst)]
 //@ modifies heaps
 //@ ensures result1 == nil && normalizeCompressionIsNone(block) ==> result0 == compressed
 //@ pred normalizeCompressionIsNone(b *DataBlockMetadata) = b.Compression == "" || b.Compression == CompressionNone
 
 //@ func ReadDataBlockRowData
-//@ props C19
+//@ props C19 C18
 //@ safety
 //@ alloc_limit fileSize(file)
 //@ requires block != nil
@@ -1280,7 +1389,7 @@ package bloomsearch
 //@ ensures result2 == nil ==> result1 == fileSize(r) && result0 != nil
 
 //@ func (*BloomSearchEngine).loadBlockRowData
-//@ props C19 C13
+//@ props C19 C13 C18
 //@ safety
 //@ requires b != nil
 //@ modifies heaps, ghost.opens, ghost.handleCloses
@@ -1294,9 +1403,10 @@ package bloomsearch
 // Get returns is not checked out.
 //@ extern (*sync.Pool).Get
 //@ ensures result != nil ==> !ghost.bufOwned[arr(slicein(result))]
+//@ ensures result != nil ==> !ghost.pinned[arr(slicein(result))]     // same justification: putScanBuffer requires an unpinned buffer
 
 //@ func getScanBuffer
-//@ props C19 C03
+//@ props C19 C03 C18
 //@ ensures arr(result) != 0 ==> !old(ghost.bufOwned[arr(result)])
 //@ exit ghost.bufOwned = arr(result) != 0 ? update(ghost.bufOwned, arr(result), true) : ghost.bufOwned
 //@ modifies ghost.bufOwned, scanBufferPools
@@ -1304,10 +1414,12 @@ package bloomsearch
 //@ ensures size > 0 ==> len(result) == size
 //@ ensures arr(result) != 0 ==> ghost.bufOwned[arr(result)]
 //@ ensures forall a :: a != arr(result) ==> ghost.bufOwned[a] == old(ghost.bufOwned[a])
+//@ ensures [C18] arr(result) != 0 ==> !ghost.pinned[arr(result)]
 
 //@ func putScanBuffer
-//@ props C19 C03
+//@ props C19 C03 C18
 //@ requires [C19,C03] arr(buf) == 0 || ghost.bufOwned[arr(buf)]
+//@ requires [C18] arr(buf) == 0 || !ghost.pinned[arr(buf)]   // never pool a buffer that index entries still view
 //@ entry ghost.bufOwned = arr(buf) != 0 ? update(ghost.bufOwned, arr(buf), false) : ghost.bufOwned
 //@ modifies ghost.bufOwned, scanBufferPools
 //@ ensures arr(buf) != 0 ==> !ghost.bufOwned[arr(buf)]
